@@ -17,7 +17,7 @@
 
    Document classes (the abstract universe; concretised by mbv/c15_docs.py and the repo's fixtures):
      "plain"          anything without modelled interaction (all fixtures, failing inputs, archives ...)
-     "aesT"           PDF that triggers the AES patch (AES-256, empty user password)
+     "aesT"           PDF that triggers the AES patch (AES-256 / V5, empty user password)
      "aesU"           PDF that needs AES only after the reader is open (AES-128 / V4, empty user
                       password): extraction works iff the patch happens to be installed
      font(f, g)       PDF with embedded font f whose null-mapped glyph ids are g
